@@ -121,8 +121,14 @@ type ScriptedReader struct {
 	pos, step int
 	Calls     int
 	Delivered int
-	done      bool
-	doneErr   error
+	// ErrReturned: the reader has handed its failure (Final or a step's Err)
+	// to the caller at least once.
+	ErrReturned bool
+	// BareErr: the failure was returned at least once with no data
+	// ((0, err)), so that no reading helper could have swallowed it.
+	BareErr bool
+	done    bool
+	doneErr error
 }
 
 func (s *ScriptedReader) Pos() int { return s.pos }
@@ -130,6 +136,7 @@ func (s *ScriptedReader) Pos() int { return s.pos }
 func (s *ScriptedReader) Read(p []byte) (int, error) {
 	s.Calls++
 	if s.done {
+		s.ErrReturned, s.BareErr = true, true
 		return 0, s.doneErr
 	}
 	if len(p) == 0 {
@@ -155,6 +162,10 @@ func (s *ScriptedReader) Read(p []byte) (int, error) {
 		s.step++
 		if st.Err != nil {
 			s.done, s.doneErr = true, st.Err
+			s.ErrReturned = true
+			if n == 0 {
+				s.BareErr = true
+			}
 			return n, st.Err
 		}
 		if n == 0 && st.N > 0 {
@@ -178,6 +189,7 @@ func (s *ScriptedReader) finish() (int, error) {
 	if s.doneErr == nil {
 		s.doneErr = io.EOF
 	}
+	s.ErrReturned, s.BareErr = true, true
 	return 0, s.doneErr
 }
 
